@@ -287,14 +287,18 @@ def verify (c : Cond) : Option Bool :=
   if !(footerValid c && c.tocSum) then none
   else some (c.time != .corrupt && !c.hasPending && c.walOk)
 
-def runActions (e : Exec) (as : List Action) : Exec × Bool :=
-  as.foldl (fun (acc : Exec × Bool) a => let r := execAction acc.1 a; (r.1, acc.2 || r.2)) (e, false)
+def runActions (e : Exec) : List Action → Exec × Bool
+  | [] => (e, false)
+  | a :: as =>
+    match execAction e a with
+    | (e1, x) => match runActions e1 as with
+      | (e2, y) => (e2, x || y)
 
 def runPhase (e : Exec) (ph : Phase × List Action) : Exec × PStat :=
-  let r := runActions e ph.2
-  let e1 := r.1
-  if (ph.1 == .indexRebuild || ph.1 == .finalize) && (e1.pTime || e1.pLex || e1.pVec) then (applyRebuilds e1, .executed)
-  else (e1, if r.2 then .executed else .skipped)
+  match runActions e ph.2 with
+  | (e1, anyExec) =>
+    if (ph.1 == .indexRebuild || ph.1 == .finalize) && (e1.pTime || e1.pLex || e1.pVec) then (applyRebuilds e1, .executed)
+    else (e1, if anyExec then .executed else .skipped)
 
 /-- phases before Verify -/
 def runBody (e : Exec) : Plan → Exec × List (Phase × PStat)
@@ -302,9 +306,9 @@ def runBody (e : Exec) : Plan → Exec × List (Phase × PStat)
   | ph :: rest =>
     if ph.1 == .verify then (e, [])
     else
-      let r1 := runPhase e ph
-      let r2 := runBody r1.1 rest
-      (r2.1, (ph.1, r1.2) :: r2.2)
+      match runPhase e ph with
+      | (e1, st) => match runBody e1 rest with
+        | (e2, sts) => (e2, (ph.1, st) :: sts)
 
 /-- result of the control model: outcome, resulting condition, what happened to the data -/
 structure CResult where
@@ -315,16 +319,17 @@ structure CResult where
 
 /-- `DoctorExecutor::run` once the memory is open (`act0` = what happened to the data before) -/
 def runOpened (pl : Plan) (act0 : DataAct) (m : Mem) : CResult :=
-  let r := runBody ⟨m, false, false, false⟩ pl
-  let act := if m.moved then DataAct.replayed else act0
-  -- Verify phase: reset_wal, close, Memvid::verify(path, deep)
-  let c := { r.1.mem.c with hasPending := false, walOk := true }
-  match verify c with
-  | none => ⟨.error, c, act⟩
-  | some true => ⟨.report (if pl.noop then .clean else .healed) .none (r.2 ++ [(.verify, .executed)]), c, act⟩
-  | some false =>
-    -- overall failure: the header saved after opening is written back
-    ⟨.report .failed .none (r.2 ++ [(.verify, .failed)]), { c with hdrPtr := m.c.hdrPtr, hdrSum := m.c.hdrSum }, act⟩
+  match runBody ⟨m, false, false, false⟩ pl with
+  | (e, sts) =>
+    let act := if m.moved then DataAct.replayed else act0
+    -- Verify phase: reset_wal, close, Memvid::verify(path, deep)
+    let c := { e.mem.c with hasPending := false, walOk := true }
+    match verify c with
+    | none => ⟨.error, c, act⟩
+    | some true => ⟨.report (if pl.noop then .clean else .healed) .none (sts ++ [(.verify, .executed)]), c, act⟩
+    | some false =>
+      -- overall failure: the header saved after opening is written back
+      ⟨.report .failed .none (sts ++ [(.verify, .failed)]), { c with hdrPtr := m.c.hdrPtr, hdrSum := m.c.hdrSum }, act⟩
 
 /-- control model of `Memvid::doctor(path, options)`.  `dbg` = the build keeps
     `debug_assert!(probe.wal_pending == 0)` in the planner (the unrepaired tree, debug profile). -/
@@ -341,9 +346,10 @@ def doctorC (dbg : Bool) (o : Opts) (c : Cond) : CResult :=
     match tryOpen c with
     | .ok m => runOpened pl .keep m
     | .error (.invalidToc, c1) =>
-      let r := aggressiveRepair c1
-      if !r.1 then ⟨.report .failed .repairFailed [], c1, .keep⟩ else
-      match tryOpen r.2 with
+      match aggressiveRepair c1 with
+      | (found, c2) =>
+      if !found then ⟨.report .failed .repairFailed [], c1, .keep⟩ else
+      match tryOpen c2 with
       | .ok m => runOpened pl .keep m
       | .error (_, c3) => ⟨.report .failed .repairedStillCorrupt [], c3, .keep⟩
     | .error (_, c1) => ⟨.report .failed .openOther [], c1, .keep⟩
